@@ -40,7 +40,7 @@ construct_sub_strides(const SrcMapping &src_mapping,
                       const std::tuple<slice_strides...> &slices_stride_factor) {
   using index_type = typename SrcMapping::index_type;
   return std::array<typename SrcMapping::index_type, sizeof...(InvMapIdxs)>{
-      (static_cast<index_type>(src_mapping.stride(InvMapIdxs)) *
+      static_cast<index_type>(static_cast<index_type>(src_mapping.stride(InvMapIdxs)) *
        static_cast<index_type>(std::get<InvMapIdxs>(slices_stride_factor)))...};
 }
 } // namespace detail
